@@ -563,6 +563,14 @@ class Consumer(object):
                 d.addCallback(self._retry_auto_commit, by_count)
                 self._commit_ds.append(d)
 
+    def _has_failed(self):
+        """Has an unrecoverable error been reported via the start() deferred?
+
+        Once it has, nothing more is fetched or delivered until the consumer
+        is stopped and started again.
+        """
+        return self._start_d is not None and self._start_d.called
+
     def _retry_fetch(self, after=None):
         """
         Schedule a delayed :meth:`_do_fetch` call after a failure
@@ -574,8 +582,8 @@ class Consumer(object):
         """
 
         # Have we been told to stop or shutdown?  Then don't actually retry.
-        if self._stopping or self._shuttingdown or self._start_d is None:
-            # Stopping, or stopped already? No more fetching.
+        if self._stopping or self._shuttingdown or self._start_d is None or self._has_failed():
+            # Stopping, stopped already, or failed? No more fetching.
             return
         if self._retry_call is None:
             if after is None:
@@ -629,8 +637,8 @@ class Consumer(object):
         # outstanding request got errback'd, clear it
         self._request_d = None
 
-        if self._stopping and failure.check(CancelledError):
-            # Not really an error
+        if (self._stopping and failure.check(CancelledError)) or self._has_failed():
+            # Not really an error, or we already reported one
             return
         # Do we need to abort?
         if self.request_retry_max_attempts != 0 and self._fetch_attempt_count >= self.request_retry_max_attempts:
@@ -821,7 +829,7 @@ class Consumer(object):
         # notifying via the _start_d deferred, as it will be 'callback'd at the
         # end of stop()
         if not (self._stopping and failure.check(CancelledError)):
-            if self._start_d:  # Make sure we're not already stopped
+            if self._start_d and not self._start_d.called:  # Make sure we're not already stopped or failed
                 self._start_d.errback(failure)
 
     def _handle_fetch_error(self, failure):
@@ -844,6 +852,10 @@ class Consumer(object):
         """
         # The _request_d deferred has fired, clear it.
         self._request_d = None
+
+        if self._has_failed():
+            # We already reported an unrecoverable error
+            return
 
         if failure.check(OffsetOutOfRangeError):
             if self.auto_offset_reset is None:
@@ -900,6 +912,10 @@ class Consumer(object):
         # Request no longer outstanding, clear the deferred tracker so we
         # can refetch
         self._request_d = None
+        if self._has_failed():
+            # An unrecoverable error (e.g. a processor failure) was reported:
+            # nothing after it may be delivered.
+            return
         messages = []
         try:
             for resp in responses:  # We should really only ever get one...
@@ -990,7 +1006,7 @@ class Consumer(object):
         proc_block_begin = 0
         proc_block_end = proc_block_size
 
-        while proc_block_begin < len(messages) and not self._shuttingdown:
+        while proc_block_begin < len(messages) and not self._shuttingdown and not self._has_failed():
             msgs_to_proc = messages[proc_block_begin:proc_block_end]
             # Call our processor callable and handle the possibility it returned
             # a deferred...
@@ -1042,6 +1058,10 @@ class Consumer(object):
             if self._retry_call.active():
                 self._retry_call.cancel()
             self._retry_call = None
+
+        if self._has_failed():
+            log.debug("_do_fetch: not fetching after a reported failure")
+            return
 
         # Do we know our offset yet, or do we need to figure it out?
         if self._fetch_offset == OFFSET_EARLIEST or self._fetch_offset == OFFSET_LATEST:
